@@ -125,6 +125,30 @@ func (f FileSpec) Content(S int) []byte {
 				}
 			}
 		}
+	case "halfzero":
+		// random first half, all-zero second half (sparse tails: disk images, preallocated files)
+		for i := 0; i < len(b)/2; i++ {
+			b[i] = byte(xs(&s) >> 7)
+		}
+		if len(b) > 0 {
+			b[0] |= 1
+		}
+	case "par2magic":
+		// a file that itself looks like a PAR2 file: it starts with the packet magic
+		for i := range b {
+			b[i] = byte(xs(&s) >> 7)
+		}
+		copy(b, "PAR2\x00PKT")
+	case "crcwindow":
+		// a window that is not a slice has the CRC-32 of a slice: the S bytes at offset d = 1 + Seed%2 have the
+		// CRC-32 of the last full slice (needs S >= 8 and at least three full slices)
+		for i := range b {
+			b[i] = byte(xs(&s) >> 7)
+		}
+		if nfull := len(b) / S; S >= 8 && nfull >= 3 {
+			d := 1 + int(f.Seed%2)
+			ForgeCRC(b[(nfull-1)*S:nfull*S], crc32.ChecksumIEEE(b[d:d+S]))
+		}
 	case "zeros":
 		// all bytes zero: every full slice is the same slice
 	case "share16k":
@@ -684,7 +708,7 @@ func GenSize(t *rapid.T, S, maxBytes int) int {
 	return n
 }
 
-var kinds = []string{"random", "random", "random", "alpha", "repeat", "zerotail", "zeroshead", "slicezeros", "crctwin", "crczero"}
+var kinds = []string{"random", "random", "random", "alpha", "repeat", "zerotail", "zeroshead", "slicezeros", "crctwin", "crczero", "par2magic", "crcwindow"}
 
 // GenFiles draws a file set. maxSlices bounds the total number of slices.
 func GenFiles(t *rapid.T, S, maxFiles, maxBytes, maxSlices int) []FileSpec {
